@@ -37,3 +37,9 @@ mut("C12", "pack-bytes-null-ones", [("librfn/pack.c", "memset(q, 0, sz);", "mems
 mut("C12", "pack-s16le-sign", [("librfn/pack.c", "\t\tp[0] = s16 & 0xff;\n\t\tp[1] = (s16 >> 8) & 0xff;", "\t\tp[0] = s16 & 0xff;\n\t\tp[1] = (s16 >> 8) & 0x7f;")], r"rf_pack_s16le")
 mut("C12", "unpack-no-advance-on-overflow", [("librfn/pack.c", "\tif (pack->p > pack->endp) \\\n\t\treturn 0; \\", "\tif (pack->p > pack->endp) { \\\n\t\tpack->p = pack->endp; return 0; } \\")], r"cursor advances|postcondition")
 mut("C12", "remaining-clamped", [("librfn/pack.c", "\treturn pack->endp - pack->p;", "\treturn pack->endp > pack->p ? pack->endp - pack->p : 0;")], r"rf_pack_remaining")
+
+# C14
+mut("C14", "unpack-u16le-no-bounds-test", [("librfn/pack.c", "\tUNPACK(pack, p, 2) {\n\t\tuint16_t u16", "\tuint8_t *p = pack->p;\n\tpack->p += 2;\n\t{\n\t\tuint16_t u16")], r"dereference failure|rf_unpack_u16le")
+mut("C14", "decode-hides-overrun", [("librfn/wavheader.c", "\t * the return value will be larger than the value supplied.\n\t */\n\treturn sz - rf_pack_remaining(&pack);\n}\n\nint rf_wavheader_encode", "\t * the return value will be larger than the value supplied.\n\t */\n\treturn rf_pack_remaining(&pack) < 0 ? (int) sz : (int) (sz - rf_pack_remaining(&pack));\n}\n\nint rf_wavheader_encode")], r"truncating|number of bytes|postcondition")
+mut("C14", "decode-F4-reverted", [("librfn/wavheader.c", "\tif (wh->fmt_chunk_size > 0x7fffff00)\n\t\treturn -EINVAL;\n", "")], r"C14 decode returns|number of bytes|wrapped length")
+mut("C14", "tostring-F5-reverted", [("librfn/wavheader.c", "wh->block_align ?\n\t\t\t\twh->data_chunk_size / wh->block_align : 0,", "wh->data_chunk_size / wh->block_align,")], r"division")
